@@ -431,5 +431,15 @@ export function f3() {
     [["A", I(Ref("OA"), Ref("OB"))], ["B", I(Ref("OA"), Ref("IC"))], ["C", I(Ref("OA"), ObjT([Prop("z", L(1))]))], ["D", I(Ref("OA"), Ref("OB"), Ref("IC"))], ["E", ArrT(I(Ref("OA"), Ref("OB")))]],
     "intersections of named objects",
   );
+  add(
+    [Alias("NA", ObjT([Prop("a", ObjT([Prop("x", P("string"))])), Prop("k", P("number"))])), Alias("NB", ObjT([Prop("a", ObjT([Prop("y", P("number"))])), Prop("l", P("boolean"), true)]))],
+    [["A", I(Ref("NA"), Ref("NB"))], ["B", ArrT(I(Ref("NA"), Ref("NB")))], ["C", I(ArrT(Ref("NA")), ArrT(Ref("NB")))]],
+    "intersections of named objects with a shared nested key",
+  );
+  add(
+    [Alias("MS", U(MapT(P("string"), P("number")), SetT(P("string")), P("null"))), Alias("MO", U(MapT(P("string"), P("number")), ObjT([Prop("a", P("string"))]))), Alias("DA", U(P("Date"), ArrT(P("Date")))), Alias("TU", U(Typed("Uint8Array"), P("string"))), Alias("BU", U(P("bigint"), ObjT([Prop("b", P("bigint"))])))],
+    [["A", Ref("MS")], ["B", Ref("MO")], ["C", Ref("DA")], ["D", Ref("TU")], ["E", Ref("BU")], ["F", ObjT([Prop("m", Ref("MS")), Prop("d", Ref("DA"), true)])]],
+    "unions with non-JSON members",
+  );
   return progs;
 }
